@@ -234,13 +234,13 @@ theorem kindOf_steps (st : Steps) (rest : List Tok) (hr1 : kindOf rest ≠ .Pare
   cases st <;> simp [printSteps, tk, hr1, hr2]
 
 theorem prim_deref {n : Nat} (ih : All n) (d : Nat) (name : String) (st : Steps)
-    (hs : (Expr.deref d name st).size ≤ n + 1) (hok : st.ok = true) (hd : d ≤ 127) (hc : st.count ≤ 126) :
+    (hs : (Expr.deref d name st).size ≤ n + 1) (hok : st.ok = true) (hd : d ≤ 127) (hc : st.count ≤ 127) :
     PrimC (.deref d name st) := by
   intro f rest hf hstop
   simp only [Expr.need, Expr.size] at hf hs
   obtain ⟨f', rfl⟩ : ∃ f', f = f' + 1 := ⟨f - 1, by omega⟩
   have hg := glue_of_stopP hstop
-  have hrec := ih.2.2.1 st (by omega) hok f' 127 rest (by simp only [Steps.need]; omega) (by omega) hg.1 hg.2.1
+  have hrec := ih.2.2.1 st (by omega) hok f' 128 rest (by simp only [Steps.need]; omega) (by omega) hg.1 hg.2.1
   cases d with
   | zero =>
     simp only [printExpr, amps, List.nil_append, List.cons_append, tId]
@@ -287,12 +287,12 @@ theorem un_sizeOf (t : Ty) : UnC (.sizeOf t) := by
   simp [parseType, this, eat, Expr.norm]
 
 theorem un_lengthOf {n : Nat} (ih : All n) (d : Nat) (name : String) (st : Steps)
-    (hs : (Expr.lengthOf d name st).size ≤ n + 1) (hok : st.ok = true) (hd : d ≤ 127) (hc : st.count ≤ 126) :
+    (hs : (Expr.lengthOf d name st).size ≤ n + 1) (hok : st.ok = true) (hd : d ≤ 127) (hc : st.count ≤ 127) :
     UnC (.lengthOf d name st) := by
   intro f rest hf _
   simp only [Expr.need, Expr.size] at hf hs
   obtain ⟨f', rfl⟩ : ∃ f', f = f' + 1 := ⟨f - 1, by omega⟩
-  have hrec := ih.2.2.1 st (by omega) hok f' 127 ({ kind := Kind.Pipe } :: rest) (by simp only [Steps.need]; omega)
+  have hrec := ih.2.2.1 st (by omega) hok f' 128 ({ kind := Kind.Pipe } :: rest) (by simp only [Steps.need]; omega)
     (by omega) (by simp) (by simp)
   simp only [printExpr, tk, List.cons_append, List.append_assoc, List.singleton_append]
   rw [parseUnary]
